@@ -14,6 +14,7 @@ from fmt import enc, opt, lst, optlist, coins, coin
 
 CONTRACT = "cosmos2contract"
 ACCOUNTS = ["alice", "bob", "carol", "dave", "erin", "frank", "grace", "heidi"]
+SCHEMA_WORDS = ["events", "events_desk", "accumulated_base", "accumulated_fee", "owner", "price", "quote", "action", "fee_events"]
 RATES = ["0", "0.003", "0.01", "0.1", "0.5", "0.25", "0.0005", "1", "0.999", "1.5", "0.05", "0.005",
          "0.0954045954045954045954045954", "0.00000000000000000001", "-0.01", "0.3333333333333333333333333333",
          "2.5e-3", "1E-2", "1e0", ".01", "0.01_", " 0.02", "0.02 ", "\t0.01", "0.0 1",
@@ -127,6 +128,7 @@ class World:
         self.attrs = {}
         self.ids = []
         self.last_create = None
+        self.last_approve = None
         self.focus = None        # (side, key) of an order being worked on repeatedly
         self.focus_left = 0
         self.accounts = []
@@ -153,8 +155,13 @@ class World:
 
     def env_line(self):
         ms = lst(sorted(self.markers.items()), lambda kv: enc(kv[0]) + "=" + kv[1])
-        ats = lst(sorted((a, n) for a, n in self.attrs.items() if n),
-                  lambda kv: enc(kv[0]) + "=" + ";".join(enc(x) for x in kv[1]))
+        def names(a, n):
+            cut = getattr(self, "pages", {}).get(a)
+            if cut is None or cut > len(n):
+                return ";".join(enc(x) for x in n)
+            # the attribute module serves this account's listing in two pages (the contract reads the first)
+            return ";".join(enc(x) for x in n[:cut]) + "|" + ";".join(enc(x) for x in n[cut:])
+        ats = lst(sorted((a, n) for a, n in self.attrs.items() if n), lambda kv: enc(kv[0]) + "=" + names(kv[0], kv[1]))
         return "ENV %s %s" % (ms, ats)
 
     def render(self, r):
@@ -185,6 +192,9 @@ class World:
         self.send("H %d %s" % (hn, desc))
         nacc = rng.randint(3, 6)
         self.accounts = rng.sample(ACCOUNTS, nacc)
+        if rng.random() < 0.06:
+            # an account whose name is a word of the storage schema
+            self.accounts[rng.randrange(nacc)] = rng.choice(SCHEMA_WORDS)
         conv = rng.sample(["cva", "cvb"], rng.choice([0, 1, 1, 2]))
         quotes = rng.sample(["qa", "qb", "qc"], rng.choice([1, 1, 2, 3]))
         if rng.random() < 0.08:
@@ -200,7 +210,8 @@ class World:
         if rng.random() < 0.08:
             # denominations spelled like vouchers of other modules; the marker table alone says what they are
             hx = "".join(rng.choice("0123456789ABCDEF") for _ in range(64))
-            shaped = [rng.choice(["ibc/" + hx, "ibc/" + hx.lower(), "ibc/" + hx[:63], "factory/alice/sub", "gamm/pool/1"])]
+            shaped = [rng.choice(["ibc/" + hx, "ibc/" + hx.lower(), "ibc/" + hx[:63], "factory/alice/sub", "gamm/pool/1",
+                                  "nhash", "nhash", "hash", "uusd", "vspn", "events"])]
             if rng.random() < 0.7:
                 quotes = quotes + shaped
             else:
@@ -233,7 +244,7 @@ class World:
                 return None, None
             if r < 0.40:
                 return "", ""
-            return rng.choices(RATES, RATE_W)[0], rng.choice(self.accounts)
+            return rng.choices(RATES, RATE_W)[0], (rng.choice(self.accounts) if rng.random() > 0.03 else "cosmos2contract")
         afr, afa = feepair()
         bfr, bfa = feepair()
         aat = rng.choice([[], [], [], [], ["kyc"], ["kyc"], ["kyc", "acc"], ["kyc", "acc"], ["kyc", "kyc"], ["acc", "kyc", "acc"]])
@@ -243,6 +254,10 @@ class World:
             if have and rng.random() < 0.15:
                 have = have + [rng.choice(have)]          # the same attribute name held twice
             self.attrs[a] = have
+            if have and rng.random() < 0.06:
+                if not hasattr(self, "pages"):
+                    self.pages = {}
+                self.pages[a] = rng.randint(0, len(have))
         self.send(self.env_line())
         if rng.random() < 0.06:
             conv = conv + ["base"]
@@ -609,6 +624,12 @@ class World:
                 return rate, rng.choice(self.accounts)
             if r < 0.92:
                 return rng.choices(RATES, RATE_W)[0], rng.choice(self.accounts)
+            if cur and rng.random() < 0.25 and parse_dec(cur[1]) is not None and "." in cur[1] and parse_dec(cur[1]) > 0:
+                w_, _, f_ = cur[1].lstrip("+").partition(".")
+                lead = len(f_) - len(f_.lstrip("0")) if w_.strip("0") == "" else 0
+                keep = lead + rng.choice([15, 16, 17])
+                if len(f_) <= keep and keep < 27:
+                    return w_ + "." + f_.ljust(keep, "0") + rng.choice(["1", "5", "49", "9"]), cur[0]
             if cur and rng.random() < 0.3 and parse_dec(cur[1]) is not None and "." in cur[1] and len(cur[1].partition(".")[2]) <= 18:
                 w_, _, f_ = cur[1].partition(".")
                 return w_ + "." + f_.ljust(18, "0") + rng.choice(["4", "0004", "49", "0000000001"]), cur[0]
@@ -745,10 +766,25 @@ class World:
         if self.last_create is not None and rng.random() < 0.03:
             self.send("EXEC " + self.last_create)          # the very same creation again, funds included
             return
+        if self.last_approve is not None and rng.random() < 0.04:
+            self.send("EXEC " + self.last_approve)         # the very same approval again, by the same approver, funds included
+            return
         if rng.random() < (0.006 if not any(a.cls[0] == "ready" for a in self.asks.values()) else 0.015):
             # a migration in the middle of an ordinary history (the approver list rewritten without looking at the book)
             ap = rng.choice([None, [], rng.sample(self.accounts, rng.randint(1, 2)), list(self.cfg.approvers[1:])])
             self.send("MIGRATE %s - - - - - -" % optlist(ap))
+            return
+        feeb = [b for b in self.bids.values() if isinstance(b, fmt.Bid) and b.fee and b.rem_fee > 0]
+        if rng.random() < (0.004 if not feeb else 0.02):
+            # ... or the fee pairs: cleared by the empty pair, moved to another account, another rate -- with fee-bearing bids resting
+            def pair_():
+                r_ = rng.random()
+                if r_ < 0.45:
+                    return "~ ~"
+                if r_ < 0.6:
+                    return "- -"
+                return "%s %s" % (enc(rng.choice(["0.1", "0.02", "0.5", "0"])), enc(rng.choice(self.accounts)))
+            self.send("MIGRATE - %s %s - -" % (pair_() if rng.random() < 0.4 else "- -", pair_()))
             return
         r = None
         focused = False
@@ -782,6 +818,8 @@ class World:
         b = self.send("EXEC " + line)
         if b.ok and r["kind"] in ("create_ask", "create_bid"):
             self.last_create = line
+        if b.ok and r["kind"] == "approve_ask":
+            self.last_approve = line
         named = [r[f] for f in ("id", "ask_id", "bid_id") if f in r]
         for i in named:
             if i not in self.ids:
@@ -820,6 +858,8 @@ def migration_history(w, hn):
     rng = w.rng
     w.send("H %d migration" % hn)
     w.accounts = rng.sample(ACCOUNTS, 4)
+    if rng.random() < 0.1:
+        w.accounts[rng.randrange(4)] = rng.choice(SCHEMA_WORDS)
     for d in ["base", "qa", "cva"]:
         m = rng.choice(["R", "U", None, None])
         if m:
@@ -837,6 +877,12 @@ def migration_history(w, hn):
         # threshold and at malformed version strings
         ver = rng.choice(["0.16.2", "0.16.3", "0.17.0", "0.18.2", "0.19.0", "0.19.0", "0.19.0+hotfix.1", "0.18.2+b"]) if rng.random() < 0.5 else rng.choice(VERSIONS)
         definition = "ats_smart_contract" if rng.random() < 0.85 else rng.choice(["def", "ats-smart-contract", "other_contract", ""])
+        if definition != "ats_smart_contract" and rng.random() < 0.4:
+            # a record written under another name that happens to carry this package's own version
+            try:
+                ver = fmt.dec(w.impl.meta.ev.split(" ")[2])
+            except Exception:
+                pass
         w.send("SEEDVER %s %s" % (enc(definition), enc(ver)))
     # seeded orders, some under legacy un-hyphenated ids
     def legacy_id():
@@ -912,7 +958,7 @@ def migration_history(w, hn):
             # a record whose id field is not its key: another spelling of it, a fresh id, or the key of another order
             idf = rng.choice([i.replace("-", ""), i.upper(), new_uuid(rng)] + (w.ids[-2:] if w.ids else []))
         if (rng.random() < 0.7) if not run_of_current else (bn >= nbids - rng.randint(1, 3) - (0 if rng.random() < 0.7 else 50)):
-            w.send("SEEDBID2 %s %s %s %s %d qa %d %s %s %s" % (
+            w.send("%s %s %s %s %s %d qa %d %s %s %s" % ("SEEDBID2" if rng.random() > 0.06 else "SEEDBID2X",
                 enc(i), enc(idf), enc(owner), "base" if rng.random() < 0.9 else rng.choice(["cva", "oldbase"]), size, total, fee,
                 enc(price), ";".join(evs) if evs else "[]"))
         else:
